@@ -1,7 +1,7 @@
 SPECIFICATION Spec
 CONSTANTS
   Prods = {"ulc", "ntag", "ev1", "n203"}
-  KeyParts = {"k0", "kA", "kB"}
+  KeyParts = {"k0", "kA"}
   Variants = {"a"}
   PFs = {0, 4, 300}
   MaxOps = 2
